@@ -22,8 +22,18 @@
 (*   "LazyOwnerMesh"    (D5b)  the DeviceMesh holding a block's state is    *)
 (*                             created lazily, by owner ranks only          *)
 (***************************************************************************)
+(*                                                                          *)
+(* Several parameter groups: every group has its own distributor (own       *)
+(* blocks, owners and segment size) but all of them gather over the SAME    *)
+(* process group, one after the other inside a step.  The model linearises  *)
+(* a step into NPG phases; block b belongs to parameter group PGOf[b]; the  *)
+(* signature of a gather is its parameter group (buffer sizes differ), and  *)
+(* a gather completes only if all members are blocked with the same         *)
+(* signature - otherwise the transport reports a mismatch / hangs, which    *)
+(* is a deadlock of the model.                                              *)
+(***************************************************************************)
 EXTENDS DistCore, TLC
-CONSTANTS W, GS, NBlk, Owner, NSteps, Deviations
+CONSTANTS W, GS, NBlk, Owner, NSteps, Deviations, NPG, PGOf
 
 C == [W |-> W, GS |-> GS, owner |-> [b \in 1..NBlk |-> Owner[b]], dev |-> Deviations, seg |-> 64]
 
@@ -45,7 +55,10 @@ CreationAgreement == \A r, q \in Ranks : Creations(r) = Creations(q)
 VARIABLES masks, t, wait, seg, pv
 vars == <<masks, t, wait, seg, pv>>
 
-Init == /\ masks \in [1..NSteps -> SUBSET Blk]
+NPh == NSteps * NPG                                   \* phases: (step, parameter group) in program order
+PG(ph) == ((ph - 1) % NPG) + 1
+BlkOf(g) == {b \in Blk : PGOf[b] = g}
+Init == /\ masks \in {m \in [1..NPh -> SUBSET Blk] : \A ph \in 1..NPh : m[ph] \subseteq BlkOf(PG(ph))}
         /\ t = [r \in Ranks |-> 1]
         /\ wait = [r \in Ranks |-> FALSE]
         /\ seg = [r \in Ranks |-> [b \in Blk |-> 0]]          \* step tag last written into b's view of r's segment
@@ -55,16 +68,17 @@ LocalActive(r) == Owned(r) \cap masks[t[r]]
 Skips(r) == ~ParticipatesC(C, r, masks[t[r]])
 
 Compute(r) ==
-  /\ ~wait[r] /\ t[r] <= NSteps
+  /\ ~wait[r] /\ t[r] <= NPh
   /\ IF Skips(r)
      THEN /\ t' = [t EXCEPT ![r] = @ + 1] /\ UNCHANGED <<wait, seg, pv>>
      ELSE /\ seg' = [seg EXCEPT ![r] = [b \in Blk |-> IF b \in LocalActive(r) THEN t[r] ELSE @[b]]]
           /\ wait' = [wait EXCEPT ![r] = TRUE] /\ UNCHANGED <<t, pv>>
   /\ UNCHANGED masks
 
-\* all members blocked in a gather (signatures are identical by construction: same group, same buffer sizes)
+\* all members blocked in a gather with the same signature (same process group, same buffer sizes = same parameter group)
 Gather(g) ==
   /\ \A r \in Members(g) : wait[r]
+  /\ \A r, q \in Members(g) : PG(t[r]) = PG(t[q])
   /\ pv' = [r \in Ranks |-> IF r \notin Members(g) THEN pv[r] ELSE
               [b \in Blk |-> IF b \in masks[t[r]]
                              THEN LET src == CHOOSE q \in Members(g) : GRank(q) = Owner[b]
@@ -74,7 +88,7 @@ Gather(g) ==
   /\ t' = [r \in Ranks |-> IF r \in Members(g) THEN t[r] + 1 ELSE t[r]]
   /\ UNCHANGED <<masks, seg>>
 
-Done == \A r \in Ranks : t[r] = NSteps + 1 /\ ~wait[r]
+Done == \A r \in Ranks : t[r] = NPh + 1 /\ ~wait[r]
 Next == (\E r \in Ranks : Compute(r)) \/ (\E g \in 0..(NGroups - 1) : Gather(g)) \/ (Done /\ UNCHANGED vars)
 Spec == Init /\ [][Next]_vars /\ WF_vars(Next)
 
@@ -89,6 +103,6 @@ NoRankLeftWaiting == <>[]Done
 \* TLC's deadlock check (no successor and not Done) finds the hang of a starved rank's peers
 
 \* the per-rank collective log the harness records is a deterministic function of the inputs
-Starvation == \E k \in 1..NSteps : \E r \in Ranks : StarvedC(C, r, masks[k])
+Starvation == \E k \in 1..NPh : \E r \in Ranks : StarvedC(C, r, masks[k])
 InvCreation == CreationAgreement
 =============================================================================
